@@ -395,6 +395,35 @@ class FaultRun:
                     return
         self.continue_history(s, "raising_predicate")
 
+    def fault_any_raising_call(self, s):
+        """Whatever makes a call raise - including a call that had no business raising: if it raises, the contents are
+        as before.  A history over text that the CSV layer has to quote or escape (delimiters, quotes, line breaks,
+        non-ASCII); every op that raises is judged like an injected fault."""
+        prof = Profile()
+        prof.allow_no_time = False
+        prof.extra_tag_vals = ["a,b", 'say "hi"', "x\ny", "tab\there", "\u00e9\u4e2d", " lead", "trail ", "'single'", ";|"]
+        prof.extra_meas = ["m,0", 'm"q', "m\r\n"]
+        prof.extra_tag_keys = ["k,1", 'q"k']
+        for _ in range(self.rng.randint(10, 18)):
+            op = gen_write_op(self.rng, s.model, prof)
+            pre = s.model.copy()
+            out = s.do(op)
+            if out.exc is None:
+                post = s.contents()
+                if post != [p.canon() for p in s.model.points]:
+                    self.res.count("prefix_resynced")
+                    if any(c and c[0] == "BAD" for c in post):
+                        return
+                    s.model.points = [MPoint(c[0], c[1], dict(c[2]), dict(c[3])) for c in post]
+                continue
+            self.res.count("history_calls_that_raised")
+            self.res.count("history_calls_that_raised.as_documented" if type(out.exc).__name__ in (out.exp_exc or ()) else "history_calls_that_raised.undocumented")
+            fault = f"any_raising_call:{op['op']}:{type(out.exc).__name__}"
+            # the model already holds what the call was allowed to leave (nothing; for a batch the prefix before the offending element)
+            if not self.after_fault(s, fault, out.exc, list(s.model.points)):
+                return
+        self.continue_history(s, "any_raising_call")
+
     def fault_unserialisable(self, s):
         """Points that pass validation but cannot be written to the CSV file (an int beyond the float range, text the
         file's encoding cannot express): the call raises at the storage layer - after validation, possibly after the
@@ -571,7 +600,7 @@ class FaultRun:
                 return
 
 
-FAMILIES = ["insert_multiple", "update_callable", "invalid_arguments", "read_only", "raising_predicate", "unusual_valid_inputs", "unserialisable"]
+FAMILIES = ["insert_multiple", "update_callable", "invalid_arguments", "read_only", "raising_predicate", "unusual_valid_inputs", "unserialisable", "any_raising_call"]
 
 
 def run(res, tier, seed, shard, nshards):
@@ -600,6 +629,7 @@ def run(res, tier, seed, shard, nshards):
     res.require("file_checks_after_fault")
     res.require("unusual_valid_inputs_accepted")
     res.require("unserialisable_raised")
+    res.require("history_calls_that_raised")
     res.assumptions += [
         "update callables misbehave in a single slot per call; insert_multiple offenders are non-Point objects or a raising generator",
         "'still usable' is decided on 5-10 further operations and ~24 reads each, compared with the model",
